@@ -213,6 +213,13 @@ def check_node(cfg, node):
                         'refine() with non-empty marks of active cells given as %s raised %s' % (op['container'], st), i)
             if op['kind'] == 'region' and not st.startswith('ValueError'):
                 return ('refine-region-raises:' + st.split(':')[0], 'refine_region raised ' + st, i)
+        al = ob.get('alias')
+        if al is not None and not al['same']:
+            return ('marks-container:aliased-live-set',
+                    'refine() with the marks of a level given as %s gives a different result (status %s) than the same call with a '
+                    'plain set copy of the same cells (status %s): the marks alias internal state that refine modifies' % (
+                        {'live': 'the set object returned by hs.active_cells(lv)', 'frozenset': 'frozenset(hs.active_cells(lv))',
+                         'keys': 'a dict key view of the active cells'}.get(op.get('container'), op.get('container')), st, al['twin_status']), i)
         bad = check_state(cfg, ob, default_marking) or check_boundary_queries(ob) or check_support_queries(cfg, ob)
         if bad:
             return (bad[0], bad[1], i)
@@ -255,7 +262,9 @@ def cob(sections):
     return '[' + ';\n   '.join(cset(s) for s in sections) + ']'
 
 
-CONT = {'set': 'CSet', 'list': 'CList', 'tuple': 'CTuple'}
+# the aliasing / iterable container kinds (whole-level marks: the live set returned by active_cells(lv), a frozenset,
+# a dict view) are sets of cells for the model
+CONT = {'set': 'CSet', 'list': 'CList', 'tuple': 'CTuple', 'live': 'CSet', 'frozenset': 'CSet', 'keys': 'CSet'}
 
 
 def region_sel(cfg, op):
@@ -638,6 +647,21 @@ def gen_cases(ctx):
                 {'kind': 'refine', 'marks': [[2, [[2, 2]]], [1, [[0, 0]]]], 'container': cont, 'trunc': d is not None},
                 {'kind': 'refine', 'marks': [], 'container': cont, 'trunc': False},
                 {'kind': 'region', 'lv': 4, 'pred': {'type': 'ball', 'c': [0, 0], 'r2': [1, 7]}}]})
+    # --- whole-level marks given as objects that alias internal state (the live set returned by active_cells(lv)) or as
+    # other iterables; finite and infinite disparity.  The model sees plain sets of cells.
+    for cont in ('live', 'frozenset', 'keys'):
+        for d in ((1, 2, None) if thorough else (1, None)):
+            cases.append({'cfg': cfg([uniform_axis(2, 3)], d, False), 'mode': 'history', 'what': 'hand-live', 'ops': [
+                {'kind': 'refine', 'marks': [[0, [[0], [1], [2]]]], 'container': cont, 'trunc': False},
+                {'kind': 'refine', 'marks': [[1, [[i] for i in range(6)]]], 'container': cont, 'trunc': False}]})
+            cases.append({'cfg': cfg([uniform_axis(2, 4)], d, True), 'mode': 'history', 'what': 'hand-live', 'ops': [
+                {'kind': 'refine', 'marks': [[0, [[1]]]], 'container': 'set', 'trunc': False},
+                {'kind': 'refine', 'marks': [[1, [[2], [3]]]], 'container': cont, 'trunc': False},
+                {'kind': 'refine', 'marks': [[0, [[0], [2], [3]]], [2, [[4], [5], [6], [7]]]], 'container': cont, 'trunc': False}]})
+            cases.append({'cfg': cfg([uniform_axis(1, 2), uniform_axis(2, 2)], d, False), 'mode': 'history', 'what': 'hand-live', 'ops': [
+                {'kind': 'refine', 'marks': [[0, [[0, 0], [0, 1], [1, 0], [1, 1]]]], 'container': cont, 'trunc': False},
+                {'kind': 'refine', 'marks': [[1, [[0, 0]]]], 'container': 'list', 'trunc': False},
+                {'kind': 'refine', 'marks': [[2, [[0, 0], [0, 1], [1, 0], [1, 1]]]], 'container': cont, 'trunc': False}]})
     # --- deep narrow chains with finite disparity >= 2 (2d+2 calls, every call adds a level; the
     # disparity marking has to propagate over several hops); the chain converges to a seeded coarse vertex
     chain_cfgs = []
@@ -731,6 +755,7 @@ def run_driver(ctx, cases, nproc=4):
 
 def run(ctx):
     ok1 = ctx.obligations_stage(PROPS, extra_targets=['C04/Examples.vo', 'C04/Tie.vo'])
+    ok3 = ctx.obligations_stage('C04/Props3.v', gate_dirs=['C05', 'C02'])
     ctx.assumptions += [
         'model: hand transcription of TPMesh/HMesh/HSpace (pyiga/hierarchical.py) and of KnotVector.mesh_support_idx_all/refine '
         '(pyiga/bspline.py) into Gallina over sorted-list finite sets (coq/C04/Model.v, coq/lib/FinSet.v); a knot vector is '
@@ -785,7 +810,7 @@ def run(ctx):
     # ---- stage 3 (always): the property evaluated on the implementation's outputs
     nfail = 0
     maxdev = 0.0
-    opkinds = {'refine-set': 0, 'refine-list': 0, 'refine-tuple': 0, 'region': 0, 'multi-level': 0, 'trunc-marking': 0,
+    opkinds = {'refine-set': 0, 'refine-list': 0, 'refine-tuple': 0, 'refine-live': 0, 'refine-frozenset': 0, 'refine-keys': 0, 'region': 0, 'multi-level': 0, 'trunc-marking': 0,
                'empty-marks': 0, 'status-ok': 0, 'status-error': 0}
     for c, n in nodes:
         ops = n['ops']
@@ -814,7 +839,9 @@ def run(ctx):
             sig = 'impl:%s:%dd' % (bad[0], dims) if not bad[0].startswith('marks-container') else 'impl:' + bad[0]
             ctx.report(sig, bad[1], {'cfg': c['cfg'], 'ops': ops[:bad[2] + 1], 'failing_step': bad[2],
                                      'impl_state': {k: v for k, v in (n['obs'][bad[2]] or {}).items() if k in ('status', 'L', 'levels', 'ret', 'mat')},
-                                     'how': 'HSpace(kvs from breaks/mults, truncate, disparity); per op hs.refine({lv: container(cells)}) or hs.refine_region'})
+                                     'how': 'HSpace(kvs from breaks/mults, truncate, disparity); per op hs.refine({lv: container(cells)}) or hs.refine_region; '
+                                            'container live = the set object hs.active_cells(lv) itself (marks = all active cells of the level), '
+                                            'frozenset = frozenset(hs.active_cells(lv)), keys = dict.fromkeys(sorted(cells)).keys()'})
     ctx.cov['traces_validated_against_impl'] = len(nodes)
     ctx.cov['property_failures_on_impl'] = nfail
     ctx.cov['float_bound'] = MAT_TOL
